@@ -24,7 +24,8 @@ packet — fact `wpInitValidates`; the decoder theorems hold for either value of
   its own journal (`pkg/model/iterator.go: LogEventIterator.Get`, `pkg/tmindex/cindex.go` rebuild), i.e. to bytes produced by
   `LogEvent.Marshal` in `partition.iwrapper` — no request path hands client bytes to it. `record_decode_total_partial` and
   `cex_record_varint` describe it: a remark (an on-disk corruption concern of C07), not a finding of C13;
-* the one open finding is **F25** (unbounded LQL nesting, `unguarded_nesting_exhausts_stack`), so `C13_full` stays false.
+* LQL nesting: commit 8131efe added a guard, but its own byte scan disagrees with the lexer about `{…}` tags tokens — open finding
+  **F25b** (`cex_guard_hole`); `C13_full` holds once the guard counts on tokens (`C13_holds_with_token_guard`).
 -/
 namespace Logrange.Props.C13
 open Go Logrange Logrange.Wire Logrange.Outcome
@@ -318,40 +319,37 @@ theorem eval_total (env : Where.Env) (e : Option Where.Expr) (flt : Where.Pred) 
   rw [Fields.valueP_wf ev.fields name ps hp]
   simp [Fields.value, Fields.valueP_wf ev.fields name ps hp]
 
-/-! ## recursion depth (finding F25) -/
+/-! ## recursion depth (findings F25, F25b) -/
 
-/-- **Answers every request — partial**: with a stack of `budget` frames, a text with at most `budget` opening
-parentheses never exhausts it. -/
-theorem answers_every_request_partial (budget : Nat) (s : Bytes) (h : s.count 40 ≤ budget) :
-    (Nesting.parse budget s).isPanic = false :=
-  Nesting.scan_noPanic budget s 0 0 (by omega)
+/-- the regenerated facts: the parser entry points of pkg/lql have a nesting guard with the limit 1000 (commit 8131efe);
+its kind is 1 (own byte scan) or 2 (counting on the lexer's tokens) -/
+theorem nesting_guard_in_place :
+    Generated.C13.lqlNestingGuard = true ∧ Generated.C13.lqlMaxNesting = 1000 ∧
+    (Generated.C13.lqlGuardKind = 1 ∨ Generated.C13.lqlGuardKind = 2) := by decide
 
-example : (Nesting.parse 2 [40, 40, 97, 41, 41]) = .ok 2 := by decide
-example : ([40, 40, 97, 41, 41] : Bytes).count 40 ≤ 2 := by decide
-
-/-- the unguarded branch (the code before commit 8131efe, repaired finding F25): for every stack size there is a request
-(`budget + 1` opening parentheses) that exhausts it — why the guard is needed; stack exhaustion is fatal in Go. -/
-theorem unguarded_nesting_exhausts_stack (budget : Nat) :
-    (Nesting.parse budget (List.replicate (budget + 1) 40)).isPanic = true :=
-  Nesting.scan_overflow budget budget 0 0 (by omega)
-
-/-- **With a nesting guard the statement holds for every text**: if every parser entry point first rejects texts nested
-deeper than `max` (the regenerated facts `lqlNestingGuard`, `lqlMaxNesting` — `false`, `0` on a tree without the guard) and
-the stack holds `max` frames, no text exhausts it. (1 000 levels cost about 5 MB of the 1 000 MB a goroutine may use:
-measured by the harness, depth 2 000 is parsed with the limit lowered to 64 MB.) -/
-theorem answers_every_request_guarded (hg : Generated.C13.lqlNestingGuard = true) (budget : Nat)
+/-- **With a guard that counts on the parser's own tokens, every text is answered**: if the stack holds `lqlMaxNesting` frames,
+no text exhausts it — whatever it contains (string literals, `{…}` tags, lexer errors), because guard and parser see the same
+lazily lexed token stream (`tscan_mono`). (1 000 levels cost about 5 MB of the 1 000 MB a goroutine may use.) -/
+theorem answers_every_request_guarded (hk : Generated.C13.lqlGuardKind = 2) (budget : Nat)
     (hb : Generated.C13.lqlMaxNesting ≤ budget) (s : Bytes) : (Nesting.parseNow budget s).isPanic = false := by
   unfold Nesting.parseNow
-  rw [hg]
-  exact Nesting.parseG_guarded _ budget hb s
+  rw [hk]
+  exact Nesting.parseG_token_guarded _ budget hb s
 
-/-- the regenerated facts: every parser entry point of pkg/lql has the guard, with the limit 1000 (commit 8131efe) -/
-theorem nesting_guard_in_place : Generated.C13.lqlNestingGuard = true ∧ Generated.C13.lqlMaxNesting = 1000 := by decide
+/-- the text `{a='}((((a=1))))` -/
+def holeText : Bytes := [123, 97, 61, 39, 125, 40, 40, 40, 40, 97, 61, 49, 41, 41, 41, 41]
 
-/-- regression for the repaired finding F25, on a small instance of the guarded parser: depth 3 is parsed with the limit 3,
-depth 4 is refused with an error (not a panic) even when the stack would not hold it -/
-example : Nesting.parseG true 3 3 [40, 40, 40, 97, 41, 41, 41] = .ok 3 ∧ Nesting.parseG true 3 3 [40, 40, 40, 40] = .err ∧
-    (Nesting.parseG false 3 3 [40, 40, 40, 40]).isPanic = true := by decide
+set_option maxRecDepth 100000 in
+/-- **Counterexample (open finding F25b)**, on a small instance of the guards (limit 3, stack of 3 frames): the byte scan of
+commit 8131efe takes the `'` inside the tags token `{a='}` for the start of a string literal, skips the rest of the text and lets
+it pass, although its four nested parentheses exceed the limit — the parser then exhausts the stack; a guard that counts on
+the tokens refuses the same text with an error; and without any guard four parentheses exhaust three frames (F25). Evaluated
+by the kernel through C12's lexer model. -/
+theorem cex_guard_hole :
+    Nesting.holeClass 3 holeText = true ∧ (Nesting.parseG 1 3 3 holeText).isPanic = true ∧
+    Nesting.parseG 2 3 3 holeText = .err ∧ (Nesting.parseG 0 0 3 [40, 40, 40, 40]).isPanic = true ∧
+    Nesting.parseG 1 3 3 [40, 40, 40, 40] = .err ∧ Nesting.parseG 1 3 3 [40, 40, 40, 97, 61, 49, 41, 41, 41] = .ok 3 := by
+  decide
 
 /-! ## position strings -/
 
@@ -406,34 +404,16 @@ def C13_full : Prop :=
   (∀ lower fstr, (Format.parse lower fstr).isPanic = false) ∧
   (∃ budget, ∀ s, (Nesting.parseNow budget s).isPanic = false)
 
-/-- **Where C13 stands**: everything but the last clause is proved above, so the full statement holds exactly when the LQL
-parser has its nesting guard — on the current tree the regenerated fact is `false` (open finding F25, witness
-`unguarded_nesting_exhausts_stack`); with `proposed-fixes/F25.diff` applied it is `true` and the statement holds. -/
-theorem C13_full_iff_guard : C13_full ↔ Generated.C13.lqlNestingGuard = true := by
-  constructor
-  · intro h
-    obtain ⟨budget, hb⟩ := h.2.2.2.2.2
-    cases hG : Generated.C13.lqlNestingGuard with
-    | true => rfl
-    | false =>
-      have hc := unguarded_nesting_exhausts_stack budget
-      have hb' := hb (List.replicate (budget + 1) 40)
-      unfold Nesting.parseNow Nesting.parseG at hb'
-      rw [hG] at hb'
-      simp only [Bool.false_eq_true, false_and, if_false] at hb'
-      unfold Nesting.parse at hc
-      rw [hb'] at hc; cases hc
-  · intro hg
-    refine ⟨?_, fun s => (pos_total s).2, fun s => ⟨(escapeJson_terminates s).2, (escapeJson_terminates s).1⟩, ?_,
-      fun lower fstr => (format_total lower fstr).1, ⟨Generated.C13.lqlMaxNesting, fun s =>
-        answers_every_request_guarded hg _ (Nat.le_refl _) s⟩⟩
-    · intro kv buf hb
-      exact ⟨(decode_total kv buf hb).2.2.1, (wpDrain_terminates kv default [] 0).2.2 buf, (decode_total kv buf hb).2.2.2.1⟩
-    · intro split trim unq s f ht hs
-      exact fromKV_WF split trim unq ht s f hs
-
-/-- **C13 holds at full strength** on the tree as it is now: the nesting guard is in place (`nesting_guard_in_place`), every
-other clause is proved above. -/
-theorem C13_holds : C13_full := C13_full_iff_guard.mpr nesting_guard_in_place.1
+/-- **Where C13 stands**: every clause but the last is proved above, and the last holds as soon as the nesting guard counts on
+the parser's own tokens (`lqlGuardKind = 2`, `proposed-fixes/F25b.diff`). With the byte-scan guard of commit 8131efe
+(`lqlGuardKind = 1`, the current tree) it does not: `cex_guard_hole`, open finding F25b. -/
+theorem C13_holds_with_token_guard (hk : Generated.C13.lqlGuardKind = 2) : C13_full := by
+  refine ⟨?_, fun s => (pos_total s).2, fun s => ⟨(escapeJson_terminates s).2, (escapeJson_terminates s).1⟩, ?_,
+    fun lower fstr => (format_total lower fstr).1, ⟨Generated.C13.lqlMaxNesting, fun s =>
+      answers_every_request_guarded hk _ (Nat.le_refl _) s⟩⟩
+  · intro kv buf hb
+    exact ⟨(decode_total kv buf hb).2.2.1, (wpDrain_terminates kv default [] 0).2.2 buf, (decode_total kv buf hb).2.2.2.1⟩
+  · intro split trim unq s f ht hs
+    exact fromKV_WF split trim unq ht s f hs
 
 end Logrange.Props.C13
